@@ -90,6 +90,8 @@ SPECS["C12"] = dict(
     ],
 )
 
+C07_KH = ["keepstore/c07_handler.go", "keepstore/c01_stub.go", "keepstore/util.go"]
+C07_STUBS = ["(*git.arvados.org/arvados.git/services/keepstore.bufferPool).Get=gosymBufGet", "(*git.arvados.org/arvados.git/services/keepstore.bufferPool).Put=gosymBufPut"]
 SPECS["C07"] = dict(
     level="model_checking",
     outside="tokens longer than 4 bytes, keys longer than 3 bytes; expiries below 2^28 (Ruby does not zero-pad); the Rails implementation itself (blob.rb is the written reference); perturbation harness uses one TTL (2 weeks) and 24 concrete hash digits",
@@ -100,6 +102,10 @@ SPECS["C07"] = dict(
              params=dict(quick=dict(toklen=3, keylen=2), thorough=dict(toklen=4, keylen=3)), witnesses=["verified", "expired"]),
         dict(name="perturb", pkg="sdk/go/arvados", harness=["arvados/c07_sig.go"], entry="GosymH_C07_perturb", replay="engine",
              params=dict(quick=dict(toklen=2, keylen=2), thorough=dict(toklen=3, keylen=3)), witnesses=["invalid", "missing", "perturbed-expiry-in-the-past"]),
+        dict(name="handler-get", pkg="services/keepstore", harness=C07_KH, entry="GosymH_C07_handler", replay="engine", stubs=C07_STUBS,
+             witnesses=["served", "expired", "refused", "signing-off"]),
+        dict(name="handler-put", pkg="services/keepstore", harness=C07_KH, entry="GosymH_C07_handler_put", replay="engine", stubs=C07_STUBS,
+             witnesses=["done"]),
         dict(name="signmanifest", pkg="sdk/go/arvados", harness=["arvados/c07_sig.go"], entry="GosymH_C07_signmanifest", replay="engine",
              witnesses=["done"]),
     ],
@@ -116,6 +122,9 @@ SPECS["C19"] = dict(
         dict(name="opaque", pkg="sdk/go/auth", harness=["auth/c19_salt.go"], entry="GosymH_C19_opaque", witnesses=["non-v2"]),
         dict(name="provider", pkg="lib/controller/federation", pam=True, harness=["federation/c19_provider.go"], entry="GosymH_C19_provider",
              params=dict(quick=dict(tokens=1), thorough=dict(tokens=2)), witnesses=["salted", "legacy-salted", "error", "done"]),
+        dict(name="keepstore", pkg="services/keepstore", harness=["keepstore/c19_remote.go", "keepstore/c07_handler.go", "keepstore/c01_stub.go", "keepstore/util.go"],
+             entry="GosymH_C19_keepstore", replay="engine",
+             stubs=C07_STUBS + ["(*git.arvados.org/arvados.git/sdk/go/keepclient.KeepClient).Get=gosymRemoteGet"], witnesses=["forwarded", "refused"]),
     ],
 )
 
